@@ -124,37 +124,53 @@ type Leaf struct {
 	V     *Val // nil for a group count field
 	Part  string
 	Count bool
+	Depth int  // number of enclosing group entries
+	First bool // delimiter (first leaf) of a group entry
 }
 
 // Wire lists the expected fields of header, body and trailer in template
 // order: populated leaves, each group as count + entries.
 func Wire(c *Case) (header, body, trailer []Leaf) {
-	header = wireItems(c.Tpl.Header, c.Header, "header", nil)
-	body = wireItems(c.Tpl.Body, c.Body, "body", nil)
-	trailer = wireItems(c.Tpl.Trailer, c.Trailer, "trailer", nil)
+	header = wireItems(c.Tpl.Header, c.Header, "header", 0, false, nil)
+	body = wireItems(c.Tpl.Body, c.Body, "body", 0, false, nil)
+	trailer = wireItems(c.Tpl.Trailer, c.Trailer, "trailer", 0, false, nil)
 	return
 }
 
-func wireItems(ns []*Node, ps []*Pop, part string, out []Leaf) []Leaf {
+func wireItems(ns []*Node, ps []*Pop, part string, depth int, first bool, out []Leaf) []Leaf {
 	for i, n := range ns {
 		p := ps[i]
+		f := first && i == 0
 		switch n.K {
 		case KField:
 			if p.V != nil {
-				out = append(out, Leaf{Tok: ref.Tok{Tag: n.Tag, Val: Text(n.T, p.V), HasEq: true}, T: n.T, V: p.V, Part: part})
+				out = append(out, Leaf{Tok: ref.Tok{Tag: n.Tag, Val: Text(n.T, p.V), HasEq: true}, T: n.T, V: p.V, Part: part, Depth: depth, First: f})
 			}
 		case KComp:
-			out = wireItems(n.Items, p.Items, part, out)
+			out = wireItems(n.Items, p.Items, part, depth, f, out)
 		case KGroup:
 			if len(p.Entries) > 0 {
-				out = append(out, Leaf{Tok: ref.Tok{Tag: n.Tag, Val: strconv.Itoa(len(p.Entries)), HasEq: true}, T: TInt, Part: part, Count: true})
+				out = append(out, Leaf{Tok: ref.Tok{Tag: n.Tag, Val: strconv.Itoa(len(p.Entries)), HasEq: true}, T: TInt, Part: part, Count: true, Depth: depth})
 				for _, e := range p.Entries {
-					out = wireItems(n.Items, e, part, out)
+					out = wireItems(n.Items, e, part, depth+1, true, out)
 				}
 			}
 		}
 	}
 	return out
+}
+
+// DuplicateTag returns a tag that occupies more than one position of the
+// template ("" if every tag is unique).
+func DuplicateTag(t *Template) string {
+	seen := map[string]bool{}
+	for _, tag := range AllTags(t) {
+		if seen[tag] {
+			return tag
+		}
+		seen[tag] = true
+	}
+	return ""
 }
 
 // Expected assembles the message the FIX definition prescribes for c
